@@ -399,9 +399,110 @@ func c15RoundTrip(st *vstat.Stats, p c15Op) *viol {
 
 var _ = reflect.DeepEqual
 
+// c15Concurrent: the same result submitted twice concurrently (an impatient retry, two operator sessions). All
+// interleavings of the two API requests with at most two pre-emptions are enumerated with C14's gate scheduler.
+// Oracle: the result's messages reach the board once, exactly one submission is accepted, the operation is retired.
+func c15Concurrent(t *testing.T, st *vstat.Stats) {
+	for _, nt := range [][2]int{{2, 2}, {3, 2}} {
+		tr, err := getTrace(t, "honest", nt[0], nt[1])
+		if err != nil {
+			t.Fatalf("trace: %v", err)
+		}
+		si, sn := shard()
+		job := 0
+		for oi := range tr.Ops {
+			pr := c14Pair{Trace: "honest", N: nt[0], T: nt[1], Op: oi, Dup: true}
+			_, rec, msgs, err := c14Setup(t, pr)
+			if err != nil {
+				t.Fatalf("%v", err)
+			}
+			want := 1
+			if rec.ResultFile != nil {
+				var g types.Operation
+				_ = json.Unmarshal(rec.ResultFile, &g)
+				want = len(g.ResultMsgs)
+			}
+			run := func(sc c14Schedule) (o c14Outcome) {
+				synctest.Test(t, func(t *testing.T) {
+					root := tmpRoot("c15c-")
+					defer os.RemoveAll(root)
+					o = c14Execute(tr, rec, msgs[:0], sc, root)
+				})
+				return
+			}
+			serial := run(c14Schedule{Pair: pr, First: 1})
+			total := serial.Steps
+			seen := map[string]bool{}
+			var enum func(start int, chosen []int)
+			enum = func(start int, chosen []int) {
+				job++
+				if job%sn == si {
+					sc := c14Schedule{Pair: pr, First: 1, Preempt: append([]int(nil), chosen...)}
+					o := run(sc)
+					st.Eval()
+					var v *viol
+					accepted := 0
+					for _, e := range o.APIErrs {
+						if e == "" {
+							accepted++
+						}
+					}
+					switch {
+					case o.Err != "":
+						v = violf("harness", "%s", o.Err)
+					case o.Posted != want:
+						v = violf("answered-twice-concurrently", "the result of a %s operation was submitted twice concurrently (pre-emptions at %v): %d message(s) reached the board, the result has %d; submissions: %q", rec.Type, chosen, o.Posted, want, o.APIErrs)
+					case accepted != 1:
+						v = violf("answered-twice-concurrently", "two concurrent submissions of the same %s result (pre-emptions at %v): %d were accepted: %q", rec.Type, chosen, accepted, o.APIErrs)
+					case containsStr(o.Pending, rec.OpID):
+						v = violf("still-pending", "after two concurrent submissions the %s operation is still pending", rec.Type)
+					}
+					if v != nil && !seen[v.Key] {
+						seen[v.Key] = true
+						report(t, st, "concurrent-duplicate", v, sc)
+					} else if v == nil && len(chosen) > 0 {
+						st.NonTrivial(fmt.Sprintf("dup/%d/%d/%d/%v", nt[0], nt[1], oi, chosen))
+						st.Class("concurrent-duplicate:" + rec.Type)
+					}
+				}
+				if len(chosen) >= 2 {
+					return
+				}
+				for s := start; s < total; s++ {
+					enum(s+1, append(chosen, s))
+				}
+			}
+			enum(0, nil)
+		}
+	}
+}
+
 func TestC15(t *testing.T) {
 	st := vstat.New("C15")
 	defer finish(t, st)
+	t.Run("concurrent-duplicate", func(t *testing.T) {
+		if replaying() {
+			var sc c14Schedule
+			if replayFor(t, "concurrent-duplicate", &sc) {
+				tr, rec, _, err := c14Setup(t, sc.Pair)
+				if err != nil {
+					t.Fatalf("%v", err)
+				}
+				var o c14Outcome
+				synctest.Test(t, func(t *testing.T) {
+					root := tmpRoot("c15c-")
+					defer os.RemoveAll(root)
+					o = c14Execute(tr, rec, nil, sc, root)
+				})
+				st.Eval()
+				if o.Posted > 1 && rec.ResultFile == nil || (o.APIErrs[0] == "" && o.APIErrs[1] == "") {
+					report(t, st, "concurrent-duplicate", violf("answered-twice-concurrently", "replayed schedule: %d message(s) posted, submissions %q", o.Posted, o.APIErrs), sc)
+				}
+			}
+			return
+		}
+		c15Concurrent(t, st)
+	})
 	rapidProp(t, st, "results", perShard(pick(800, 30000)), 1, c15Gen, func(p c15Plan) *viol { return c15Run(t, st, p) })
 	rapidProp(t, st, "roundtrip", perShard(pick(4000, 200000)), 2, c15GenOp, func(p c15Op) *viol { return c15RoundTrip(st, p) })
 	t.Run("recorded-files", func(t *testing.T) {
